@@ -19,7 +19,7 @@ ASSUMPTIONS = ['members are duck-typed SyncCrazyflie stand-ins (open_link / clos
                'SyncCrazyflie objects over the sim:// driver']
 REQUIRED = ['mon.parallel_safe', 'mon.parallel', 'mon.sequential', 'mon.open_failures', 'mon.double_open', 'mon.real_members',
             'mon.actions_invoked', 'mon.argument_dictionaries_in_another_order',
-            'mon.real_swarm_reopened_with_a_link_dropping_in_the_handshake']
+            'mon.real_swarm_reopened_with_a_link_dropping_in_the_handshake', 'mon.actions_raising_errors_without_a_text_argument']
 DESC_TIMEOUT = 900
 
 
@@ -112,6 +112,16 @@ def run_actions(desc, ctx):
             arnd = random.Random(desc['seed'] * 7919 + si)
             delays = {u: [arnd.choice((0.0, 0.0, 0.01, 0.05)) for _ in range(3)] for u in uris}
 
+            # what an action raises is not always an Exception('text'): errno-style, key-style, payload-less and object-carrying errors
+            flavour = arnd.randrange(6)
+            if flavour:
+                ctx.count('mon.actions_raising_errors_without_a_text_argument', len(failing))
+
+            def mk_exc(uri, flavour=flavour):
+                e = (Fail(uri), OSError(5, uri), KeyError(7), Fail(), Fail(object(), uri), TimeoutError())[flavour]
+                e.member = uri
+                return e
+
             def action(scf, *a):
                 s = ds.CUR
                 calls.append(('begin', scf.uri, a, s.now, s.steps))
@@ -119,7 +129,7 @@ def run_actions(desc, ctx):
                     ds.v_sleep(d)
                 calls.append(('end', scf.uri, a, s.now, s.steps))
                 if scf.uri in failing:
-                    raise Fail(scf.uri)
+                    raise mk_exc(scf.uri)
 
             def fn(s):
                 sw = Swarm(uris, factory=fac)
@@ -176,7 +186,7 @@ def run_actions(desc, ctx):
                             ctx.violate('swarm:parallel_safe-raises-iff-an-action-raised-violated', dict(info, raised=repr(exc)), replay=rp)
                         elif exc is not None:
                             cause = exc.__cause__
-                            if not isinstance(cause, Fail) or str(cause) not in failing:
+                            if getattr(cause, 'member', None) not in failing:
                                 ctx.violate('swarm:parallel_safe-cause-is-not-one-of-the-raised-errors', dict(info, cause=repr(cause)), replay=rp)
                 for c in begins:
                     if tuple(c[2]) != want_args[c[1]]:
